@@ -691,10 +691,12 @@ def _exact1(ff, fq, v):
     try: return r if _F(r) == fq(_F(v)) else None
     except ZeroDivisionError: return None
 
+JUNK = "junk"
 def hist_ok(inp):
     """Generator-side filter: a history is used only if (i) every step fits the way the object is stored at that point and
-    (ii) every floating-point operation it causes is exact and finite on every value that can sit in a buffer, masked
-    pixels included (abstract interpretation on the SETS of values at unmasked / masked positions)."""
+    (ii) every floating-point operation it causes is exact and finite on every value that can sit at an UNMASKED position of a
+    buffer (abstract interpretation on the SETS of values at unmasked / masked positions).  At masked positions of a natively
+    stored buffer anything may happen (1.0 / 0.0 = inf, inf - inf = NaN, rounding): these values must never be shown."""
     op = inp["op"]; mask = inp["mask"]; nbo = bool(inp.get("nbo")); sn = bool(inp.get("sn"))
     if op in ("histm2", "histm1"):
         return all(s[0] in ("save", "swap", "copy", "flip", "peek", "hdu", "file", "set2" if op == "histm2" else "set1") for s in inp["steps"])
@@ -712,8 +714,10 @@ def hist_ok(inp):
             for key in ("u", "m"):
                 if cur[key] is None: continue
                 for v in cur[key]:
-                    r = _exact1(ff, fq, v)
-                    if r is None: return False
+                    r = JUNK if v == JUNK else _exact1(ff, fq, v)
+                    if r is None:
+                        if key == "u": return False
+                        r = JUNK          # a masked pixel of the raw buffer: never shown (inf, NaN, a rounded value ... are all junk)
                     new[key].add(r)
             cur = new
         elif t == "bop":
@@ -724,8 +728,11 @@ def hist_ok(inp):
                 if cur[key] is None: continue
                 for a in cur[key]:
                     for b in reg[key]:
+                        if a == JUNK or b == JUNK: new[key].add(JUNK); continue
                         r = f(a, b)
-                        if r != r or abs(r) == float("inf") or _F(r) != f(_F(a), _F(b)): return False
+                        if r != r or abs(r) == float("inf") or _F(r) != f(_F(a), _F(b)):
+                            if key == "u": return False
+                            r = JUNK
                         new[key].add(r)
             cur = new
         elif t == "save": reg = cur
@@ -782,7 +789,8 @@ DERIV = [
     [["copy"], ["op", "sub", 0.5]],                                         # arr.copy() - 0.5
     [["op", "add", 1.0], ["op", "mul", 2.0 ** 990]],                        # huge values, also in the masked pixels of the buffer
     [["op", "mul", 0.0], ["op", "add", 5e-324]],                            # the smallest double everywhere
-    [["op", "rdiv", 1.0], ["op", "mul", 3.0]],                              # 3.0 * (1.0 / arr)   (powers of two; no zero in the buffer)
+    [["op", "rdiv", 1.0], ["op", "mul", 3.0]],                              # 3.0 * (1.0 / arr)   (powers of two; inf at the masked pixels of a native buffer)
+    [["op", "rdiv", 2.0], ["save"], ["op", "mul", 1.0], ["bop", "sub"], ["op", "add", 1.0]],   # w = 2.0 / arr; w * 1.0 - w + 1.0   (inf - inf = NaN at masked pixels)
 ]
 # re-use of ONE object: the same object observed twice, edited in place between two observations, aliased, copied
 def reuse_templates(native):
